@@ -126,7 +126,22 @@ impl Property for C16 {
         params.max_packages = 7;
         params.max_soft = 0;
         let mut wr = Rng::stream(seed, "world");
-        let (w, ps) = gen_world(&mut wr, &params, 1);
+        let (mut w, ps) = gen_world(&mut wr, &params, 1);
+        // a union is whatever `version_sets_in_union` yields: on some seeds one union has a single member or none (the
+        // solvable that requires an empty union is simply not installable)
+        {
+            let mut dr = Rng::stream(seed, "degenerate-union");
+            if !w.unions.is_empty() && dr.chance(1, 6) {
+                let ids: Vec<u32> = w.unions.keys().copied().collect();
+                let u = *dr.pick(&ids);
+                let m = w.unions.get_mut(&u).unwrap();
+                if dr.chance(1, 2) {
+                    m.clear();
+                } else {
+                    m.truncate(1);
+                }
+            }
+        }
         let mut r = Rng::stream(seed, "snapshot");
         let mut spec = SnapSpec::default();
         // seeds: everything the root problem mentions, or random subsets
